@@ -19,7 +19,12 @@ Layers (kept apart on purpose):
         somewhere in the Swift (resp. Objective-C) output of the same spec, or is a name the templates /
         tables / options mention literally;
     (d) Objective-C: header and implementation of a class agree on the selectors of its methods (obj_c_client: both
-        directions and equally often; obj_c_types: every declared selector is defined).
+        directions and equally often; obj_c_types: every declared selector is defined);
+    (e) Objective-C, per header: every generated class the header names is declared there (`@class`, `@interface`)
+        or in a generated header it imports, transitively (`objc_file_closure`; three (backend, cause) pairs found on
+        the unchanged tree are counted, not judged, until decided: FILE_CLOSURE_OPEN);
+    (f) swift_client run twice into one folder (user pass, then --auth-type app): over the files of both passes every
+        top-level type is declared exactly once (`check_two_passes`).
 
 Not judged: whether the output compiles (no Swift / ObjC compiler here); names that collide under the
 backend's own naming scheme (the precondition `nameInjective` of the theorems: the direct oracle counts such
@@ -52,11 +57,13 @@ RULE = ('generated specs (specgen presets routes / default / fe with a stone_cfg
         'documentation references and degenerate shapes) + a deterministic grid: 87 type shapes (every primitive with and '
         'without constraints, every kind of user type of the own and of another namespace, lists nested up to four deep, '
         'maps, nullable items) each as required / optional / inherited field, field of a route argument struct, tag, '
-        'nullable tag, inherited tag and directly as route argument / result / error; each spec through the six '
+        'nullable tag, inherited tag, directly as route argument / result / error, and -- in a namespace of its own -- as '
+        'field a route argument inherits from another namespace one and two levels up; each spec through the six '
         'invocations under an option grid (swift_client -w none/app/user/team, obj_c_client -w user/app/team/noauth, '
         'obj_c_types with and without -e, three sets of client-args / style-to-request tables with one to three variants '
         'per style); every emitted file is lexed; declarations scanned and compared with the IR and with the Lean model; '
-        'header and implementation selectors of every Objective-C class compared; 4 x N random type expressions per '
+        'header and implementation selectors of every Objective-C class compared; every generated class a header names '
+        'declared or imported by that header; the user and app passes of swift_client together declare each type once; 4 x N random type expressions per '
         'mapper against the model. A case is non-trivial when the spec has at least one user type or route.')
 
 # ======================================================================================================
@@ -1421,6 +1428,28 @@ def check_decls(key, E, decls):
     return out
 
 
+def check_two_passes(key, first_decls, second_decls):
+    """swift_client is run twice into one output folder (user client, then --auth-type app; the app pass leaves out
+    what "the user auth client" already defined). Over the folder after both runs every top-level class / enum /
+    struct / protocol is declared exactly once. -> (what, sig, detail)"""
+    out = []
+    rewritten = {d['file'] for d in second_decls}
+    where = collections.OrderedDict()
+    for which, decls in (('user', first_decls), ('app', second_decls)):
+        for d in decls:
+            if d['scope'] or d['kind'] not in ('class', 'enum', 'struct', 'protocol'):
+                continue
+            if which == 'user' and d['file'] in rewritten:
+                continue
+            where.setdefault(d['name'], []).append('%s (%s pass)' % (d['file'], which))
+    for name, files in where.items():
+        if len(files) > 1:
+            out.append(('duplicate-declaration', {'oracle': 'exactly-once', 'backend': key, 'kind': 'type-across-passes'},
+                        {'name': name, 'declared_in': files, 'backend': key,
+                         'why': 'the user pass and the --auth-type app pass into one folder both declare it'}))
+    return out
+
+
 def check_selectors(key, decls):
     """Objective-C: header and implementation of one class agree on its methods. obj_c_client: every selector the
     header of a routes / client class declares is defined in the implementation, equally often, and the other way round
@@ -2381,6 +2410,13 @@ def eval_case(case, keep_files=False):
                 res['stats']['selectors_compared.' + key] = sum(1 for d in decls if d['kind'] == 'method' and d['unit'] == 'h')
             if key not in COMPANION_KEYS:
                 res['runs'][key]['compact'] = compact(key, decls, tokens, ir, nm, opts)
+        # the two passes of the SDK build (user client, then `--auth-type app`) write into ONE folder: over the files
+        # of both -- a file the second pass writes again replaces the first -- every top-level type is declared once
+        for app_key, user_key in (('swift_client', 'swift_client_user'), ('swift_client_objc', 'swift_client_objc_user')):
+            if opts.get('sw_auth') == 'app' and app_key in per and user_key in per and \
+                    not res['runs'][app_key]['lex'] and not res['runs'][user_key]['lex']:
+                res['problems'].extend(check_two_passes(app_key, per[user_key][1], per[app_key][1]))
+                res['stats']['two_passes.' + app_key] += 1
         sw_keys = SWIFT_KEYS + (COMPANION_KEYS if opts.get('sw_auth') == 'app' else ())
         for lang, keys, fn in (('swift', sw_keys, swift_closure), ('objc', OBJC_KEYS, objc_closure)):
             if all(k in per and not res['runs'][k]['lex'] for k in keys):
